@@ -166,7 +166,6 @@ func RealKill(sc *Scenario, k int, ref []*workflow.Plan, which string, res *vpro
 	return true
 }
 
-
 // WriteFault runs the scenario in a child process in which the k-th storage update fails, and judges the child's event
 // log with the persist-before-act rules of C08: "Every state change is durable before the engine acts on it" — a state
 // change whose write failed is not durable, so the engine must not act on it (the engine's own answer is to exit).
